@@ -106,6 +106,8 @@ func handle(line string) string {
 			return "BADREQ"
 		}
 		return exprRun(string(b))
+	case "BRIDGE":
+		return bridgeServe(f)
 	case "EXPRPOS":
 		if len(f) != 2 {
 			return "BADREQ"
